@@ -218,6 +218,11 @@ func canonPack(o packOut) string {
 var pNames = []string{"a", "b", "c.tf", "d", "e", ".git", ".terraform", "modules", "x y", "é", "foo", "bar", ".terraformignore-not", "z", "..data", "...", "..2024", "-dash", ".hidden"}
 var pRuleFiles = []string{"", "foo\n", "d/\n", "*.tf\n", "d/\n!d/e\n", "/a\n", "**/b\n", "d/*\n", "!foo\nfoo/\n", "# c\n\n  \n!\nbar/\n", "e\n!e/a\n", "a+b\n", "d/**/a\n"}
 
+// Trees in which a dereferenced directory leads back to itself are generated for C19 only: on code
+// without the F26 repair they kill the whole lane process (stack overflow), which would turn the
+// checks of the other properties that use this lane into "could not complete".
+var packWithCycles = false
+
 func genTree(r *Rng) []PNode {
 	nodes := []PNode{
 		{Path: "p", Kind: "d", Perm: 0755, Mtime: 1300000000e9},
@@ -242,7 +247,7 @@ func genTree(r *Rng) []PNode {
 			PNode{Path: "p/ext/dir/sub/deeper", Kind: "l", Data: "../../../ext/dir2"},
 			PNode{Path: "p/ext/dir2", Kind: "d", Perm: 0755, Mtime: 1300000011e9}, PNode{Path: "p/ext/dir2/f2", Kind: "f", Perm: 0644, Mtime: 1300000012e9, Data: "f2"})
 	}
-	if r.Chance(15) {
+	if packWithCycles && r.Chance(15) {
 		// link cycles inside the outside directory (F26, repaired: a symlink-cycle error, no crash):
 		// to itself, to an ancestor that contains it, by absolute path
 		cyc := []PNode{
@@ -340,7 +345,7 @@ func derefCycleCase(linkPath, target string) *PCase {
 
 var packCorpus = []*PCase{symlinkedComponentCase("BB", true), symlinkedComponentCase("B", true), symlinkedComponentCase("BB", false),
 	derefRuleCase("l/inner\n"), derefRuleCase("inner\n"), derefRuleCase("l/sub/\n"), derefRuleCase("/l/*\n!/l/other\n"), derefRuleCase("l/\n!l/sub/deep\n"),
-	derefCycleCase("p/ext/self", "."), derefCycleCase("p/ext/d/up", ".."), derefCycleCase("p/ext/d/abs", "@ARENA@/p/ext"), derefCycleCase("p/ext/d/fine", "../f")}
+}
 
 func genPCase(r *Rng) *PCase {
 	c := &PCase{Nodes: genTree(r), Src: "@ARENA@/p/src", Deref: r.Chance(40), Ignore: r.Chance(50)}
@@ -356,9 +361,15 @@ func genPCase(r *Rng) *PCase {
 func init() {
 	lanes["pack"] = func(cfg *Config, rep *Report) {
 		rep.Rule = "source trees of 1..9 nodes below src (files with modes 0000-0777 and .0/.4/.5/.6 s mtimes, directories incl. empty and read-only, fifos, links: in-tree relative/absolute, dangling, '..' detours, to a prefix-sharing sibling, to an outside file / directory / chain) next to outside decoys, x {dereference} x {ignore on/off with 13 rule files} x allow-lists; non-trivial = has a link, a rule file or a special file; distinct by (tree, options)"
+		packWithCycles = cfg.Prop == "C19"
+		corpus := packCorpus
+		if packWithCycles {
+			corpus = append(append([]*PCase{}, packCorpus...), derefCycleCase("p/ext/self", "."), derefCycleCase("p/ext/d/up", ".."),
+				derefCycleCase("p/ext/d/abs", "@ARENA@/p/ext"), derefCycleCase("p/ext/d/fine", "../f"))
+		}
 		runPackLane(cfg, rep, func(r *Rng, i int) []*PCase {
-			if i < len(packCorpus) {
-				return []*PCase{packCorpus[i]}
+			if i < len(corpus) {
+				return []*PCase{corpus[i]}
 			}
 			return []*PCase{genPCase(r)}
 		})
